@@ -3452,7 +3452,7 @@ static size_t ZSTD_copyBlockSequences(SeqCollector* seqCollector, const seqStore
         /* Update repcode history for the sequence */
         ZSTD_updateRep(repcodes.rep,
                        inSeqs[i].offBase,
-                       inSeqs[i].litLength == 0);
+                       outSeqs[i].litLength == 0);   /* note : inSeqs[i].litLength is a truncated 16-bit field */
 
         nbOutLiterals += outSeqs[i].litLength;
     }
